@@ -8,6 +8,7 @@ import Mathlib.Tactic.Linarith
 import Mathlib.Tactic.NormNum
 import Mathlib.Data.Nat.ModEq
 import Mathlib.Data.Nat.Sqrt
+import Mathlib.NumberTheory.LegendreSymbol.JacobiSymbol
 namespace Bee2V.C05.Etc
 open Bee2V.C05
 
@@ -566,5 +567,347 @@ theorem zzSqrtV_spec' (w n a : Nat) (hw : 0 < w) (ha : a < 2 ^ (w * n)) :
       rw [h4]; omega
     · omega
     · omega
+
+/-! ## zzJacobi -/
+
+open scoped NumberTheorySymbols
+
+/-- the sign picked up by removing `2^s` from the numerator -/
+def twoSign (s v : Nat) : Int := if s % 2 = 1 ∧ (v % 8 = 3 ∨ v % 8 = 5) then -1 else 1
+
+theorem loZerosEF_spec (v : Nat) (hv : v % 2 = 1) : ∀ (f n : Nat), 0 < n → n ≤ f →
+    (n / 2 ^ loZerosEF f n) % 2 = 1 ∧ 0 < n / 2 ^ loZerosEF f n ∧ n / 2 ^ loZerosEF f n ≤ n
+      ∧ J((n : ℤ) | v) = twoSign (loZerosEF f n) v * J(((n / 2 ^ loZerosEF f n : ℕ) : ℤ) | v) := by
+  intro f
+  induction f with
+  | zero => intro n h1 h2; omega
+  | succ f ih =>
+    intro n hn hf
+    unfold loZerosEF
+    by_cases he : n % 2 = 0
+    · rw [if_pos he]
+      obtain ⟨g1, g2, g3, g4⟩ := ih (n / 2) (by omega) (by omega)
+      have e : n / 2 ^ (1 + loZerosEF f (n / 2)) = n / 2 / 2 ^ loZerosEF f (n / 2) := by
+        rw [Nat.pow_add, Nat.pow_one, Nat.div_div_eq_div_mul]
+      rw [e]
+      refine ⟨g1, g2, by omega, ?_⟩
+      have hz : ((n : ℤ)) % 2 = 0 := by exact_mod_cast he
+      have h8 := jacobiSym.even_odd hz hv
+      have e2 : (n : ℤ) / 2 = ((n / 2 : ℕ) : ℤ) := by push_cast; rfl
+      rw [e2, g4] at h8
+      rw [← h8]
+      generalize loZerosEF f (n / 2) = s'
+      generalize J(((n / 2 / 2 ^ s' : ℕ) : ℤ) | v) = X
+      unfold twoSign
+      have hs : (1 + s') % 2 = 1 ↔ ¬ s' % 2 = 1 := by omega
+      by_cases c1 : v % 8 = 3 ∨ v % 8 = 5 <;> by_cases c2 : s' % 2 = 1 <;> simp [c1, c2, hs]
+    · rw [if_neg he]
+      simp only [Nat.pow_zero, Nat.div_one]
+      refine ⟨by omega, hn, Nat.le_refl _, ?_⟩
+      simp [twoSign]
+
+theorem zzJacobiLoop_spec : ∀ (f u v : Nat) (t : Int), v % 2 = 1 → v ≤ f → (u < v ∨ v = 1) →
+    zzJacobiLoop f u v t = t * J((u : ℤ) | v) := by
+  intro f
+  induction f with
+  | zero => intro u v t h1 h2; omega
+  | succ f ih =>
+    intro u v t hv hf huv
+    unfold zzJacobiLoop
+    by_cases h1 : v > 1
+    · rw [if_pos h1]
+      by_cases hu0 : u = 0
+      · rw [if_pos hu0, hu0]
+        simp [jacobiSym.zero_left h1]
+      · rw [if_neg hu0]
+        by_cases hu1 : u = 1
+        · rw [if_pos hu1, hu1]
+          simp [jacobiSym.one_left]
+        · rw [if_neg hu1]
+          simp only []
+          obtain ⟨g1, g2, g3, g4⟩ := loZerosEF_spec v hv u u (by omega) (Nat.le_refl _)
+          change (u / 2 ^ loZerosE u) % 2 = 1 at g1
+          change 0 < u / 2 ^ loZerosE u at g2
+          change u / 2 ^ loZerosE u ≤ u at g3
+          change J((u : ℤ) | v) = twoSign (loZerosE u) v * J(((u / 2 ^ loZerosE u : ℕ) : ℤ) | v) at g4
+          generalize loZerosE u = s at *
+          generalize u / 2 ^ s = u' at *
+          rw [ih (v % u') u' _ g1 (by omega) (Or.inl (Nat.mod_lt _ g2))]
+          rw [g4]
+          have hqr := jacobiSym.quadratic_reciprocity_if g1 hv
+          have hml := jacobiSym.mod_left (v : ℤ) u'
+          rw [← Int.natCast_mod] at hml
+          rw [← hqr, hml]
+          unfold twoSign
+          generalize J(((v % u' : ℕ) : ℤ) | u') = X
+          by_cases c1 : s % 2 = 1 ∧ (v % 8 = 3 ∨ v % 8 = 5) <;>
+            by_cases c2 : u' % 4 = 3 ∧ v % 4 = 3 <;> simp [c1, c2]
+    · rw [if_neg h1]
+      have : v = 1 := by omega
+      subst this
+      simp [jacobiSym.one_right]
+
+theorem zzJacobiV_spec' (a b : Nat) (hb : b % 2 = 1) : zzJacobiV a b = J((a : ℤ) | b) := by
+  unfold zzJacobiV
+  rw [zzJacobiLoop_spec (b + 1) (a % b) b 1 hb (by omega)
+    (by rcases Nat.lt_or_ge 1 b with h | h
+        · exact Or.inl (Nat.mod_lt _ (by omega))
+        · exact Or.inr (by omega))]
+  rw [one_mul, Int.natCast_mod, ← jacobiSym.mod_left]
+
+/-! ## Montgomery reduction -/
+
+theorem pow_w_succ (w i : Nat) : 2 ^ (w * (i + 1)) = 2 ^ (w * i) * 2 ^ w := by
+  rw [Nat.mul_succ, Nat.pow_add]
+
+/-- the multiplier `wi` kills the lowest remaining word -/
+theorem mont_word (B q md mp : Nat) (hmp : (md % B * mp + 1) % B = 0) :
+    (q + (q % B * mp % B) * md) % B = 0 := by
+  have h0 : md * mp + 1 ≡ 0 [MOD B] := by
+    have : md * mp + 1 ≡ md % B * mp + 1 [MOD B] :=
+      (((Nat.mod_modEq md B).symm).mul_right mp).add_right 1
+    exact this.trans hmp
+  have e1 : q % B * mp % B ≡ q * mp [MOD B] :=
+    (Nat.mod_modEq _ _).trans ((Nat.mod_modEq q B).mul_right mp)
+  have e2 : q + (q % B * mp % B) * md ≡ q + q * mp * md [MOD B] :=
+    (Nat.ModEq.refl q).add (e1.mul_right md)
+  have e3 : q + q * mp * md = q * (md * mp + 1) := by ring
+  rw [e3] at e2
+  have e4 : q * (md * mp + 1) ≡ q * 0 [MOD B] := h0.mul_left q
+  exact (e2.trans e4).trans (by rw [Nat.mul_zero])
+
+theorem zzRedMontLoopV_spec (w md mp : Nat) (hmp : (md % 2 ^ w * mp + 1) % 2 ^ w = 0) :
+    ∀ (k i a : Nat), 2 ^ (w * i) ∣ a →
+      2 ^ (w * (i + k)) ∣ zzRedMontLoopV w md mp k i a
+      ∧ zzRedMontLoopV w md mp k i a ≡ a [MOD md]
+      ∧ zzRedMontLoopV w md mp k i a + md * 2 ^ (w * i) ≤ a + md * 2 ^ (w * (i + k)) := by
+  intro k
+  induction k with
+  | zero => intro i a h; exact ⟨h, Nat.ModEq.refl _, Nat.le_refl _⟩
+  | succ k ih =>
+    intro i a hdiv
+    unfold zzRedMontLoopV
+    simp only []
+    generalize hwi : a / 2 ^ (w * i) % 2 ^ w * mp % 2 ^ w = wi
+    have hwlt : wi < 2 ^ w := by rw [← hwi]; exact Nat.mod_lt _ (Nat.two_pow_pos w)
+    have hdiv' : 2 ^ (w * (i + 1)) ∣ a + wi * md * 2 ^ (w * i) := by
+      obtain ⟨q, hq⟩ := hdiv
+      have hq' : a / 2 ^ (w * i) = q := by
+        rw [hq, Nat.mul_div_cancel_left _ (Nat.two_pow_pos _)]
+      have := mont_word (2 ^ w) q md mp hmp
+      rw [hq'] at hwi
+      rw [hwi] at this
+      obtain ⟨c, hc⟩ := Nat.dvd_of_mod_eq_zero this
+      refine ⟨c, ?_⟩
+      rw [pow_w_succ, hq]
+      calc 2 ^ (w * i) * q + wi * md * 2 ^ (w * i) = 2 ^ (w * i) * (q + wi * md) := by ring
+        _ = 2 ^ (w * i) * 2 ^ w * c := by rw [hc]; ring
+    obtain ⟨g1, g2, g3⟩ := ih (i + 1) _ hdiv'
+    have e : i + 1 + k = i + (k + 1) := by omega
+    rw [e] at g1 g3
+    refine ⟨g1, g2.trans ?_, ?_⟩
+    · have : wi * md * 2 ^ (w * i) ≡ 0 [MOD md] := by
+        rw [Nat.modEq_zero_iff_dvd]
+        exact ⟨wi * 2 ^ (w * i), by ring⟩
+      simpa using (Nat.ModEq.refl a).add this
+    · have hw1 : wi * md * 2 ^ (w * i) + md * 2 ^ (w * i) ≤ md * 2 ^ (w * (i + 1)) := by
+        rw [pow_w_succ]
+        have : (wi + 1) * (md * 2 ^ (w * i)) ≤ 2 ^ w * (md * 2 ^ (w * i)) :=
+          Nat.mul_le_mul_right _ (by omega)
+        calc wi * md * 2 ^ (w * i) + md * 2 ^ (w * i) = (wi + 1) * (md * 2 ^ (w * i)) := by ring
+          _ ≤ 2 ^ w * (md * 2 ^ (w * i)) := this
+          _ = md * (2 ^ (w * i) * 2 ^ w) := by ring
+      omega
+
+/-- zzRedMont (header: mod odd — through mont_param —, a < mod * R): the result is `< mod` and
+    is `a * R^{-1}`: `result * R ≡ a (mod mod)`, R = B^n -/
+theorem zzRedMontV_spec' (w n md mp a : Nat) (hmp : (md % 2 ^ w * mp + 1) % 2 ^ w = 0)
+    (hmd : md < 2 ^ (w * n)) (ha : a < md * 2 ^ (w * n)) :
+    zzRedMontV w n md mp a < md ∧ zzRedMontV w n md mp a * 2 ^ (w * n) ≡ a [MOD md] := by
+  obtain ⟨g1, g2, g3⟩ := zzRedMontLoopV_spec w md mp hmp n 0 a (by simp)
+  unfold zzRedMontV
+  simp only []
+  generalize zzRedMontLoopV w md mp n 0 a = s at *
+  simp only [Nat.zero_add, Nat.mul_zero, Nat.pow_zero, Nat.mul_one] at g1 g3
+  obtain ⟨F, hF⟩ := g1
+  have hR := Nat.two_pow_pos (w * n)
+  have h2R : 2 ^ (w * (2 * n)) = 2 ^ (w * n) * 2 ^ (w * n) := by
+    rw [show w * (2 * n) = w * n + w * n by ring, Nat.pow_add]
+  rw [h2R]
+  generalize 2 ^ (w * n) = R at *
+  subst hF
+  have hmd0 : 0 < md := by
+    rcases Nat.eq_zero_or_pos md with h | h
+    · subst h; simp at ha
+    · exact h
+  have hFlt : F < 2 * md := by
+    have : R * F < R * (2 * md) := by
+      calc R * F < a + md * R := by omega
+        _ < md * R + md * R := by omega
+        _ = R * (2 * md) := by ring
+    exact Nat.lt_of_mul_lt_mul_left this
+  have e1 : R * F / R = F := Nat.mul_div_cancel_left _ hR
+  have e2 : R * F / (R * R) = F / R := by
+    rw [← Nat.div_div_eq_div_mul, e1]
+  rw [e1, e2]
+  have key : (if md ≤ F % R ∨ (if F / R ≠ 0 then 1 else 0) = 1 then (F % R + R - md) % R else F % R)
+      = if md ≤ F then F - md else F := by
+    by_cases hFR : F < R
+    · rw [Nat.div_eq_of_lt hFR, Nat.mod_eq_of_lt hFR]
+      simp only [ne_eq, not_true_eq_false, if_false, Nat.zero_ne_one, or_false]
+      by_cases hc : md ≤ F
+      · rw [if_pos hc, if_pos hc]
+        have : F + R - md = (F - md) + R := by omega
+        rw [this, Nat.add_mod_right]
+        exact Nat.mod_eq_of_lt (by omega)
+      · rw [if_neg hc, if_neg hc]
+    · have h1 : F / R ≠ 0 := by
+        intro h
+        rw [Nat.div_eq_zero_iff] at h
+        omega
+      have h2 : F % R = F - R := by
+        rw [Nat.mod_eq_sub_mod (by omega)]
+        exact Nat.mod_eq_of_lt (by omega)
+      rw [if_pos h1, h2, if_pos (Or.inr rfl), if_pos (by omega)]
+      have : F - R + R - md = F - md := by omega
+      rw [this]
+      exact Nat.mod_eq_of_lt (by omega)
+  rw [key]
+  by_cases hc : md ≤ F
+  · rw [if_pos hc]
+    refine ⟨by omega, Nat.ModEq.trans ?_ g2⟩
+    have : R * F = (F - md) * R + md * R := by
+      rw [← Nat.add_mul]; rw [Nat.sub_add_cancel hc, Nat.mul_comm]
+    rw [this]
+    have h0 : md * R ≡ 0 [MOD md] := by
+      rw [Nat.modEq_zero_iff_dvd]; exact ⟨R, rfl⟩
+    simpa using ((Nat.ModEq.refl ((F - md) * R)).add h0).symm
+
+  · rw [if_neg hc]
+    refine ⟨by omega, ?_⟩
+    rw [Nat.mul_comm]; exact g2
+
+/-- `R = B^n` is invertible modulo an odd modulus: cancel it -/
+theorem cancel_R {md k x y : Nat} (hodd : md % 2 = 1) (h : x * 2 ^ k ≡ y * 2 ^ k [MOD md]) :
+    x ≡ y [MOD md] := by
+  apply Nat.ModEq.cancel_right_of_coprime _ h
+  apply Nat.Coprime.pow_right
+  rw [Nat.coprime_comm]
+  unfold Nat.Coprime
+  rw [Nat.gcd_rec, hodd]
+  rfl
+
+theorem eq_of_modEq_lt {md x y : Nat} (h : x ≡ y [MOD md]) (hx : x < md) (hy : y < md) : x = y := by
+  have := h
+  unfold Nat.ModEq at this
+  rwa [Nat.mod_eq_of_lt hx, Nat.mod_eq_of_lt hy] at this
+
+/-! ## zmCreate: octet strings -/
+
+theorem oval_append (a b : List Nat) :
+    val 8 (a ++ b) = val 8 a + 2 ^ (8 * a.length) * val 8 b := by
+  induction a with
+  | nil => simp [val]
+  | cons x xs ih =>
+    rw [List.cons_append, val_cons, val_cons, ih, List.length_cons, Nat.mul_succ, Nat.pow_add]
+    ring
+
+theorem oval_lt (a : List Nat) (ha : Wf 8 a) : val 8 a < 2 ^ (8 * a.length) := by
+  induction a with
+  | nil => simp [val]
+  | cons x xs ih =>
+    obtain ⟨hx, hxs⟩ := Wf_cons.mp ha
+    have := ih hxs
+    rw [val_cons, List.length_cons, Nat.mul_succ, Nat.pow_add]
+    have e : 2 ^ (8 * xs.length) * 2 ^ 8 = 2 ^ 8 * 2 ^ (8 * xs.length) := Nat.mul_comm _ _
+    have h8 : (2 : Nat) ^ 8 = 256 := rfl
+    rw [e]
+    rw [h8] at hx ⊢
+    omega
+
+theorem oval_allFF (l : List Nat) (h : memIsRepV l 0xFF = true) :
+    val 8 l + 1 = 2 ^ (8 * l.length) := by
+  induction l with
+  | nil => simp [val]
+  | cons x xs ih =>
+    simp only [memIsRepV, List.all_cons, Bool.and_eq_true, beq_iff_eq] at h
+    have := ih (by simpa [memIsRepV] using h.2)
+    rw [val_cons, List.length_cons, Nat.mul_succ, Nat.pow_add]
+    have e : 2 ^ (8 * xs.length) * 2 ^ 8 = 2 ^ 8 * 2 ^ (8 * xs.length) := Nat.mul_comm _ _
+    have h8 : (2 : Nat) ^ 8 = 256 := rfl
+    rw [e, h8]
+    omega
+
+theorem oval_pos (l : List Nat) (h : memIsZeroV l = false) : 0 < val 8 l := by
+  induction l with
+  | nil => simp [memIsZeroV] at h
+  | cons x xs ih =>
+    simp only [val_cons]
+    by_cases hx : x = 0
+    · subst hx
+      have : memIsZeroV xs = false := by simpa [memIsZeroV] using h
+      have := ih this
+      omega
+    · omega
+
+/-! ## wordNegInv -/
+
+theorem wordNegInv_step (w m0 ret e : Nat) (h : 2 ^ e ∣ m0 * ret + 1) :
+    2 ^ (min (2 * e) w) ∣ m0 * (ret * ((m0 * ret % 2 ^ w + 2) % 2 ^ w) % 2 ^ w) + 1 := by
+  have e1 : ret * ((m0 * ret % 2 ^ w + 2) % 2 ^ w) % 2 ^ w ≡ ret * (m0 * ret + 2) [MOD 2 ^ w] :=
+    (Nat.mod_modEq _ _).trans
+      ((Nat.ModEq.refl ret).mul ((Nat.mod_modEq _ _).trans ((Nat.mod_modEq _ _).add_right 2)))
+  have e2 : m0 * (ret * ((m0 * ret % 2 ^ w + 2) % 2 ^ w) % 2 ^ w) + 1
+      ≡ m0 * (ret * (m0 * ret + 2)) + 1 [MOD 2 ^ w] := (e1.mul_left m0).add_right 1
+  have e3 : m0 * (ret * (m0 * ret + 2)) + 1 = (m0 * ret + 1) * (m0 * ret + 1) := by ring
+  rw [e3] at e2
+  have d1 : 2 ^ (min (2 * e) w) ∣ 2 ^ w := Nat.pow_dvd_pow 2 (Nat.min_le_right _ _)
+  have d2 : 2 ^ (min (2 * e) w) ∣ (m0 * ret + 1) * (m0 * ret + 1) := by
+    have : 2 ^ (2 * e) ∣ (m0 * ret + 1) * (m0 * ret + 1) := by
+      rw [Nat.two_mul, Nat.pow_add]; exact Nat.mul_dvd_mul h h
+    exact Nat.dvd_trans (Nat.pow_dvd_pow 2 (Nat.min_le_left _ _)) this
+  exact ((e2.of_dvd d1).dvd_iff (dvd_refl _)).2 d2
+
+theorem wordNegInvLoop_spec (w m0 : Nat) : ∀ (k ret e : Nat), 2 ^ e ∣ m0 * ret + 1 → e ≤ w →
+    2 ^ (min (e * 2 ^ k) w) ∣ m0 * wordNegInvLoop w m0 k ret + 1 := by
+  intro k
+  induction k with
+  | zero =>
+    intro ret e h he
+    simpa [wordNegInvLoop, Nat.min_eq_left he] using h
+  | succ k ih =>
+    intro ret e h he
+    unfold wordNegInvLoop
+    have := ih _ _ (wordNegInv_step w m0 ret e h) (Nat.min_le_right _ _)
+    have e4 : min (min (2 * e) w * 2 ^ k) w = min (e * 2 ^ (k + 1)) w := by
+      rw [Nat.pow_succ]
+      by_cases hc : 2 * e ≤ w
+      · rw [Nat.min_eq_left hc]; congr 1; ring
+      · have h1 : min (2 * e) w = w := Nat.min_eq_right (by omega)
+        rw [h1]
+        have hp := Nat.two_pow_pos k
+        have h2 : w ≤ w * 2 ^ k := Nat.le_mul_of_pos_right _ hp
+        have h3 : w ≤ e * (2 ^ k * 2) := by
+          calc w ≤ 2 * e := by omega
+            _ = e * (1 * 2) := by ring
+            _ ≤ e * (2 ^ k * 2) := Nat.mul_le_mul_left _ (Nat.mul_le_mul_right _ hp)
+        rw [Nat.min_eq_right h2, Nat.min_eq_right h3]
+    rw [e4] at this
+    exact this
+
+/-- u16/u32/u64NegInv: `mod[0] * mont_param + 1 ≡ 0 (mod B)` for odd mod[0] — the C ASSERT of
+    zzRedMont and the hypothesis `hmp` of the Montgomery theorems -/
+theorem wordNegInvV_spec' (w m0 : Nat) (hw : w = 16 ∨ w = 32 ∨ w = 64) (hodd : m0 % 2 = 1) :
+    (m0 * wordNegInvV w m0 + 1) % 2 ^ w = 0 := by
+  unfold wordNegInvV
+  have h1 : 2 ^ 1 ∣ m0 * m0 + 1 := by
+    apply Nat.dvd_of_mod_eq_zero
+    have : m0 * m0 % 2 = 1 := by rw [Nat.mul_mod, hodd]
+    omega
+  have := wordNegInvLoop_spec w m0 (Nat.log2 w) m0 1 h1 (by omega)
+  have hl : 1 * 2 ^ Nat.log2 w = w := by
+    rcases hw with rfl | rfl | rfl <;> decide
+  rw [hl, Nat.min_self] at this
+  exact Nat.mod_eq_zero_of_dvd this
 
 end Bee2V.C05.Etc
